@@ -5,6 +5,8 @@ outcome) plus a literal transcription of mat/shadow.go's detection arithmetic (T
 for equal strides/increments, conservative otherwise).  Every ordered pair of windows in the bounded
 geometry is printed by TLC and replayed: both views are built on one real slice and every
 applicable receiver-taking method of Dense / VecDense / SymDense / TriDense / CDense is called.
+Family "matvec": a Dense window and a column / row view (VecDense) of the same parent, either one the
+receiver (Outer, RankOne, Mul, Add with a vector operand; MulVec into a view).
 """
 import json
 import os
@@ -25,6 +27,9 @@ def run(ctx):
     else:
         fams.append(("mat 5x5", dict(FAMILY="mat", R1=5, C1=5, R2=0, C2=0, BACKLEN=0)))
         fams.append(("matdiff 4x6|6x4", dict(FAMILY="matdiff", R1=4, C1=6, R2=6, C2=4, BACKLEN=0)))
+    mv = 6 if th else 5
+    fams.append(("matvec %dx%d (window x column/row view)" % (mv, mv), dict(FAMILY="matvec", R1=mv, C1=mv, R2=0, C2=0, BACKLEN=0)))
+    fams.append(("matvec 3x7 (window x column/row view)", dict(FAMILY="matvec", R1=3, C1=7, R2=0, C2=0, BACKLEN=0)))
     fams.append(("sym/tri diagonal blocks %d" % (7 if th else 6), dict(FAMILY="sym", R1=7 if th else 6, C1=7 if th else 6, R2=0, C2=0, BACKLEN=0)))
     # seed-chosen extra geometry (sampling beyond the fixed bound)
     r = 3 + ctx.seed % 4
